@@ -14,7 +14,13 @@ PROPS = {   # subject prefix -> (property, what failed)
  "fix: DM22 request carries SPN bits": ("C16", "DM22 request encoded SPN bits 16..18 from spn >> 22: every SPN above 65535 was requested as SPN & 0xFFFF"),
  "fix: the job thread tolerates receive sessions": ("C08", "job thread held between the key snapshot and the table lookup while the receive thread completes the message: KeyError, job thread dead (both layers)"),
  "fix: J1939-22 advance the send session before": ("C08", "J1939-22 originator pre-empted after a segment was on the bus but before the session state was advanced: the CTS / EOM acknowledge handled in between was overwritten, message lost or job thread spinning"),
- "fix: DM14": ("C17", ""),
+ "fix: DM14 server treats a read of exactly 8": ("C17", "a DM14 read of exactly 8 data bytes: the server sent 'operation complete' before its multi-packet DM16, the client returned [] and both sides stayed non-idle"),
+ "fix: DM14 read converts every object": ("C17", "DM14 read with value conversion: every object after the first was converted from a wrong byte slice"),
+ "fix: DM14 server does not queue the end-of-message": ("C17", "after a multi-packet DM14 read the 7 bytes of the end-of-message acknowledge stayed in the server's write queue: the next write handed them to the application instead of the written data"),
+ "fix: DM14 server forgets the pointer": ("C17", "after one successful DM14 access every request for a different memory address was refused as busy"),
+ "fix: MemoryAccess.read/write return to IDLE": ("C18", "after any failed DM14 query the client facade stayed in WAIT_QUERY: the next read raised 'Process already Running', the next write silently did nothing"),
+ "fix: DM14 server side is usable again": ("C18", "after a refusal at the proceed callback (no seed/key) the server facade was deaf; after a wrong key the server object kept the rejected request's state; after respond(False) a request for another address was refused as busy"),
+ "fix: Dm14Query leaves no listener": ("C18", "Dm14Query kept its DM15 listener, state and queued exceptions after a failed query: the next query raised the previous query's error"),
 }
 log = subprocess.check_output(['git', '-C', '/repo', 'log', '--reverse', '--format=%h|%s']).decode().strip().split('\n')
 cur = json.load(open('/verif/known_findings.json'))
